@@ -43,9 +43,13 @@ def handle (op : String) (j : Json) : Except String Json := do
     let seqs ← getNatListList j "codes"
     let ivs ← getIvs j
     let via ← getStr j "via"
-    let m := rowsJ T (if via == "dna" then strandSpecific T seqs ivs else extractStranded T seqs ivs)
+    let m := rowsJ T (if via == "dna" then strandSpecific T seqs ivs
+                      else if via == "plain" then some (getSequences (seqs.getD 0 []) ivs)
+                      else if via == "unstranded" then some (extractUnstranded seqs ivs)
+                      else extractStranded T seqs ivs)
     let s := match Base.omap (decode T) seqs with
-      | some t => Json.mkObj [("rows", natListList (specStrand t ivs)), ("enc_same", Json.bool true)]
+      | some t => Json.mkObj [("rows", natListList (if via == "plain" || via == "unstranded" then relevant t ivs else specStrand t ivs)),
+                              ("enc_same", Json.bool true)]
       | none => errJ "other:undecodable"
     pure (reply m (some s))
   | "translate" =>
